@@ -71,6 +71,7 @@ type harnessEvidence struct {
 	Validated    int                `json:"native_runs_agreeing"`
 	Inconclusive []string           `json:"inconclusive,omitempty"`
 	AssumeCuts   int                `json:"paths_cut_by_assume"`
+	OverApprox   int                `json:"paths_with_undecided_feasibility_explored_anyway,omitempty"`
 }
 
 func cmdRun(args []string) int {
@@ -160,7 +161,7 @@ func cmdRun(args []string) int {
 			printResult(res, os.Getenv("VERIF_VERBOSE") != "")
 			he := harnessEvidence{Harness: h.Func, Package: h.Pkg, Config: cfg, Bounds: h.Bounds, Paths: len(res.Paths), Outcomes: res.Outcomes,
 				Decisions: res.Decisions, Obligations: res.Obligations, Discharged: res.Discharged, Queries: res.Queries,
-				SolverTimeS: res.SolverTime, WallS: res.WallS, Inconclusive: res.Inconclusive, AssumeCuts: res.AssumeCuts}
+				SolverTimeS: res.SolverTime, WallS: res.WallS, Inconclusive: res.Inconclusive, AssumeCuts: res.AssumeCuts, OverApprox: res.OverApprox}
 			for k, v := range res.FuncsEntered {
 				if strings.Contains(k, modulePath) && !strings.Contains(k, "verif") && !strings.Contains(k, "Verif") {
 					funcs[strings.ReplaceAll(k, modulePath+"/", "")] += v
